@@ -177,6 +177,9 @@ def call_builtin(ex, obj, args, kwargs, st):
         if isinstance(a.ty, TStr):
             return [(st, mk_str(repr_of_str(a.term)))]
         return to_str(ex, a, st)
+    if obj in (int, float) and args and isinstance(args[0].ty, TObj) and not repo.in_repo(args[0].ty.cls):
+        fv = SV(TFunc(), (), py=Static(('extmethod', args[0].ty.cls, '__int__' if obj is int else '__float__'), recv=args[0]))
+        return ex.call_value(fv, [], {}, st)
     if obj is int:
         a = args[0]
         if len(args) > 1:
@@ -276,6 +279,9 @@ def to_str(ex, a, st):
             else:
                 out += to_str(ex, SV(ty.inner, a.t[1:]), s)
         return out
+    if isinstance(ty, TObj) and not repo.in_repo(ty.cls):
+        fv = SV(TFunc(), (), py=Static(('extmethod', ty.cls, '__str__'), recv=a))
+        return ex.call_value(fv, [], {}, st)
     if isinstance(ty, TObj):
         out = []
         sts = [(st, False)]
